@@ -577,14 +577,14 @@ pub(crate) fn tokenize_file(ctx: &mut StaticsContext, file_id: FileId) -> Vec<To
                 } else if let Some('*') = lexer.peek_char(1) {
                     // multi-line comment
                     let mut next = 2;
+                    // the comment ends at the first `*/` (a lone `*` or `/` is part of its text)
                     while let Some(c) = lexer.peek_char(next)
-                        && let Some(c2) = lexer.peek_char(next + 1)
-                        && c != '*'
-                        && c2 != '/'
+                        && !(c == '*' && lexer.peek_char(next + 1) == Some('/'))
                     {
                         next += 1;
                     }
-                    lexer.index += next + 2;
+                    // an unterminated comment runs to the end of the file
+                    lexer.index = (lexer.index + next + 2).min(lexer.chars.len());
                 } else if let Some('=') = lexer.peek_char(1) {
                     lexer.emit(TokenKind::SlashEq)
                 } else {
